@@ -102,6 +102,9 @@ MC = {
 
 # ---- B3: vector generators (module, constants of the cfg per tier, formulas that judge the recorded steps) ----
 B3 = {
+    "C14": [dict(gen="Gen_Limits", quick='MaxN = 3\n  Reps = 1\n  MaxUs = {"1"}\n  MaxSFs = {"0", "1"}\n  Variants <- VariantsQuick',
+                 thorough='MaxN = 4\n  Reps = 1\n  MaxUs = {"1", "50%"}\n  MaxSFs = {"0", "1"}\n  Variants <- VariantsQuick', props=["P_C14"])],
+    "C01": [dict(gen="Gen_Dedup", quick="Full = FALSE\n  Reps = 1", thorough="Full = TRUE\n  Reps = 2", props=["P_C01", "P_C03"])],
     "C17": [dict(gen="Gen_Batch", quick="BatchSizes = {2, 3, 8, 16}", thorough="BatchSizes = {2, 3, 5, 8, 16, 32, 64}", props=["P_C17", "P_C16"])],
     "C18": [dict(gen="Gen_Settings", quick="MaxSettings = 3\n  AllOrders = FALSE\n  Full = FALSE", thorough="MaxSettings = 3\n  AllOrders = TRUE\n  Full = TRUE", props=["P_C18", "P_C10"])],
     "C06": [dict(gen="Gen_Canary", quick="Full = FALSE", thorough="Full = TRUE", props=["P_C06", "P_C08", "P_C14"])],
